@@ -163,4 +163,45 @@ theorem forRange_fill {α β ρ : Type} (f : α → β) (z : β) (body : Int →
   have := forRangeFrom_fill (ρ := ρ) f body hb xs [] (List.replicate (len xs).toNat z) (by simp [len])
   simpa [forRange] using this
 
+/-! ### indexing at a known position (tables of the translated `levenshtein`) -/
+
+theorem idx_nat {α : Type} (l : List α) (k : Nat) : idx l (k : Int) = l[k]? := by
+  simp [idx]
+
+theorem idx_nat_succ {α : Type} (l : List α) (k : Nat) : idx l ((k : Int) + 1) = l[k+1]? := by
+  have : ((k : Int) + 1) = ((k + 1 : Nat) : Int) := by omega
+  rw [this, idx_nat]
+
+theorem setIdx_nat {α : Type} (l : List α) (k : Nat) (v : α) (h : k < l.length) :
+    setIdx l (k : Int) v = some (l.set k v) := by
+  have : (0:Int) ≤ ↑k ∧ (↑k : Int) < len l := by simp [len]; omega
+  simp [setIdx, this]
+
+theorem setIdx_nat_succ {α : Type} (l : List α) (k : Nat) (v : α) (h : k + 1 < l.length) :
+    setIdx l ((k : Int) + 1) v = some (l.set (k+1) v) := by
+  have : ((k : Int) + 1) = ((k + 1 : Nat) : Int) := by omega
+  rw [this, setIdx_nat _ _ _ h]
+
+
+theorem idx_at {α : Type} (a b : List α) (x : α) (k : Nat) (h : a.length = k) :
+    idx (a ++ x :: b) (k : Int) = some x := by
+  subst h; simp [idx_nat]
+
+theorem idx_at1 {α : Type} (a b : List α) (x y : α) (k : Nat) (h : a.length = k) :
+    idx (a ++ x :: y :: b) ((k : Int) + 1) = some y := by
+  subst h; simp [idx_nat_succ]
+
+theorem set_at1 {α : Type} (a b : List α) (x y v : α) (k : Nat) (h : a.length = k) :
+    setIdx (a ++ x :: y :: b) ((k : Int) + 1) v = some (a ++ x :: v :: b) := by
+  subst h
+  rw [setIdx_nat_succ _ _ _ (by simp)]
+  simp [List.set_append]
+
+
+theorem set_at {α : Type} (a b : List α) (x v : α) (k : Nat) (h : a.length = k) :
+    setIdx (a ++ x :: b) (k : Int) v = some (a ++ v :: b) := by
+  subst h
+  rw [setIdx_nat _ _ _ (by simp)]
+  simp
+
 end GoFlags.Go
